@@ -3,6 +3,7 @@ import TucanProofs.Lemmas.Sentence
 import TucanProofs.Lemmas.ParserDenotation
 import TucanProofs.Lemmas.AcceptIff
 import TucanProofs.Lemmas.AstDenotation
+import TucanProofs.Lemmas.AstElements
 import TucanProofs.Lemmas.TablesPin
 import TucanProofs.Lemmas.MoreExamples
 /-!
@@ -73,6 +74,18 @@ theorem C10_denotes (s : Str) (g : Graph) (h : graphFromTucan s = .ok g) :
         (∀ v : Int, x.rad = some v ↔ ∃ w : Nat, (w : Int) = v ∧ (i + 1, "rad".toList, w) ∈ ast.valuedSettings) ∧
         x.chg = none ∧ x.x = none ∧ x.y = none ∧ x.zc = none) :=
   graphFromTucan_denotes s g h
+
+/-- **Which element sits at which index, explicitly.**  The rearrangement `C10_denotes` speaks of is
+`ast.sortedSymbols`: the formula's expansion merge-sorted (stably) by atomic number, a plain function of the syntax
+tree.  Atom `i` of the returned graph has the `i`-th symbol of that list and that symbol's atomic number. -/
+theorem C10_elements (s : Str) (g : Graph) (h : graphFromTucan s = .ok g) :
+    ∃ toks ast, lex s = some toks ∧ Sentence toks ast ∧
+      ast.sortedSymbols.length = ast.atomCount ∧
+      ast.sortedSymbols.Perm ast.expansion ∧
+      ast.sortedSymbols.Pairwise (fun a b => (elementZ a).getD 0 ≤ (elementZ b).getD 0) ∧
+      ∀ i (hi : i < ast.sortedSymbols.length), ∃ x z, g.attrs? i = some x ∧
+        x.sym = some ast.sortedSymbols[i] ∧ elementZ ast.sortedSymbols[i] = some z ∧ x.z = some (z : Int) :=
+  graphFromTucan_elements s g h
 
 /-- the expansion has as many symbols as the formula states atoms -/
 theorem C10_expansion_length (ast : Ast) : ast.expansion.length = ast.atomCount := ast.expansion_length
